@@ -31,7 +31,8 @@ pub fn write_module(
     for segment in key.iter() {
         path.push(segment.as_str());
     }
-    path.set_extension("rs");
+    // not `set_extension`: a module called `a.b` belongs in `a.b.rs`, not in `a.rs`
+    path.as_mut_os_string().push(".rs");
 
     let directory_path = path.parent().map(|p| p.to_path_buf()).unwrap_or_default();
     std::fs::create_dir_all(directory_path)?;
